@@ -52,14 +52,9 @@ def version():
     return _VERSION['w']
 
 
-# K1 source tie (tools/props/src_translate.py, docs/reports/SRC.md).  Its receive_next fragments and the assembly
-# receive_next_src (= receive_next W64) are keyed to receive_next as found; on a tree with
-# fixes/C08-receive-next-revalidate.diff one fragment has a new shape (length word at offset 0 read before the second
-# validation), so the tie is not run there until it is re-keyed (to do, see docs/reports/C08.md) - said in the evidence.
-EXTRA_PROP_FILES = ['Props/C08Src.v'] if version() == 'W64' else []
-if version() != 'W64':
-    ASSUMPTIONS.append('the K1 source tie Props/C08Src.v (fragments of receive_next as found) is NOT run on this tree: receive_next has the '
-                       'shape of fixes/C08-receive-next-revalidate.diff and the tie has to be re-keyed (model version W64R is used)')
+# K1 source tie (tools/props/src_translate.py, docs/reports/SRC.md): the fragments of receive_next are keyed to the function as it
+# is since fix a146cb8 (C08_src_receive_next_revalidated: assembled, they are the model version W64R)
+EXTRA_PROP_FILES = ['Props/C08Src.v']
 
 
 def mode_c(mode):
